@@ -555,8 +555,9 @@ func (prop) Execute(scAny any, phase string, log *core.Log) core.Result {
 	var g geom.T
 	var derr error
 	var ms0, ms1 runtime.MemStats
+	in := append([]byte(nil), data...)
 	runtime.ReadMemStats(&ms0)
-	p := core.Guard(func() { g, derr = lib.Unmarshal(data) })
+	p := core.Guard(func() { g, derr = lib.Unmarshal(in) })
 	runtime.ReadMemStats(&ms1)
 	if p != "" {
 		res.Fail("panic", "panic:unmarshal:"+core.PanicSite(p), "Unmarshal panicked on %s (shadow %s %s): %s", short(data), v.Class, v.Why, p)
@@ -575,6 +576,23 @@ func (prop) Execute(scAny any, phase string, log *core.Log) core.Result {
 	}
 	if !outcome(&res, "Unmarshal", v, lib, data, g, derr, -1, "") {
 		return res
+	}
+	if !bytes.Equal(in, data) {
+		res.Fail("input-modified", "input-modified:Unmarshal", "Unmarshal changed its input bytes from %s to %s", short(data), short(in))
+		return res
+	}
+	if g != nil {
+		// the input buffer is the caller's again: reused, it must not reach
+		// into the geometry that was returned
+		before, _ := mgeom.Observe(g)
+		for i := range in {
+			in[i] ^= 0x5a
+		}
+		after, aerr := mgeom.Observe(g)
+		if before != nil && (aerr != nil || mgeom.Diff(before, after) != "") {
+			res.Fail("result-aliases-input", "result-aliases-input:Unmarshal", "the geometry Unmarshal returned for %s changed when the caller reused the input buffer: was %s, now %s (%v)", short(data), before, after, aerr)
+			return res
+		}
 	}
 	// 2. Read through a read plan
 	rd := simio.NewReader(data, s.Read)
